@@ -4,6 +4,10 @@ patch="$1"; shift
 cd /repo || exit 2
 git apply "$patch" || { echo "patch does not apply"; exit 2; }
 cd /verif
+# evidence written while a seeded change is applied must not replace the evidence of the unchanged tree
+rm -rf .work/evidence_backup; mkdir -p .work; cp -r evidence .work/evidence_backup
+restore_evidence() { rm -rf /verif/evidence; cp -r /verif/.work/evidence_backup /verif/evidence; }
+trap restore_evidence EXIT
 for p in "$@"; do
   ./check "$p" --tier quick 2>&1 | grep -E "^(VIOLATION|OK|KNOWN-FINDING)" | head -3
 done
